@@ -409,13 +409,9 @@ where
             Entry::Vacant(e) => {
                 e.insert((primitive, r.gen));
             }
-            Entry::Occupied(mut e) => match (e.get_mut(), primitive) {
-                ((Primitive::Dictionary(ref mut dict), _), Primitive::Dictionary(new)) => {
-                    dict.append(new);
-                }
-                (old, new) => {
-                    *old = (new, r.gen);
-                }
+            Entry::Occupied(mut e) => {
+                // the last value written replaces the pending one (also when both are dictionaries)
+                *e.get_mut() = (primitive, r.gen);
             }
         }
         let rc = Shared::new(obj);
